@@ -32,32 +32,8 @@ theorem propsOk_ne (ps : List (List Bytes)) (h : propsOk ps = true) : ∀ r ∈ 
   simp only [propsOk, List.all_eq_true, Bool.not_eq_true', List.isEmpty_eq_false_iff] at h
   exact h
 
-/-- `propsItems_rows` needs only names and their distinctness -/
-theorem propsItems_rows' (ps : List (List Bytes)) (h : propsDistinct ps = true) :
-    propsItems ps = ps.flatMap rowItems := by
-  simp only [propsDistinct, Bool.and_eq_true] at h
-  obtain ⟨hok, hd⟩ := h
-  have hne0 := propsOk_ne ps hok
-  unfold propsItems
-  suffices hs : ∀ (pre post : List (List Bytes)), ps = pre ++ post →
-      (post.flatMap fun row => match row with
-        | [] => []
-        | key :: _ => (propsGet ps key).map fun v => (key, v)) = post.flatMap rowItems from hs [] ps rfl
-  intro pre post
-  induction post generalizing pre with
-  | nil => intro _; rfl
-  | cons row post ih =>
-    intro hps
-    simp only [List.flatMap_cons]
-    rw [ih (pre ++ [row]) (by simp [hps])]
-    congr 1
-    cases row with
-    | nil => rfl
-    | cons key vs =>
-      have hne : ∀ r ∈ pre, r ≠ [] := fun r hr => hne0 r (by rw [hps]; simp [hr])
-      have hpre := distinct_heads pre (key :: vs) post key vs rfl (by rw [← hps]; exact hd) hne
-      simp only [rowItems]
-      rw [hps, propsGet_row pre post key vs hpre]
+theorem propsItems_rows' (ps : List (List Bytes)) (_h : propsDistinct ps = true) :
+    propsItems ps = ps.flatMap rowItems := propsItems_eq ps
 
 /-- a row with every value as it is read back -/
 def readRow (reg : Registry) : List Bytes → List Bytes
